@@ -312,6 +312,18 @@ func (h *BabbageBlockHeader) UnmarshalCBOR(cborData []byte) error {
 	return nil
 }
 
+// MarshalCBOR returns the original wire bytes of a decoded block header so that
+// re-serialising an unmodified object reproduces exactly the bytes its hash was
+// computed over (non-canonical encodings included); objects built in-process
+// are encoded from their fields.
+func (h *BabbageBlockHeader) MarshalCBOR() ([]byte, error) {
+	if cborData := h.Cbor(); cborData != nil {
+		return cborData, nil
+	}
+	type tBabbageBlockHeader BabbageBlockHeader
+	return cbor.Encode((*tBabbageBlockHeader)(h))
+}
+
 func (h *BabbageBlockHeader) Hash() common.Blake2b256 {
 	if h.hash == nil {
 		tmpHash := common.Blake2b256Hash(h.Cbor())
